@@ -140,6 +140,10 @@ class tail_vector {
         if (key.size() == 0) {
             return tpos == 0;
         }
+        if (tpos == 0) {
+            // The reserved position of the empty suffix matches only the empty string.
+            return false;
+        }
 
         std::uint64_t kpos = 0;
 
